@@ -95,6 +95,10 @@ def focus(ctx, P):
     if fb is not None:
         from rules import c03
         c03.holdback(ctx, P, fb)
+    # `legacy_key_id` panics for a v2/v3 key that is not RSA ("invalid key constructed"): the constructor's refusal has to cover V2 as
+    # it covers V3 - more generally no version test may separate the two (shared with C05)
+    from rules import c05
+    c05.v2_judged_as_v3(ctx, P)
     # the IV / nonce of a locked secret key is handed to CFB / AEAD primitives that assert its exact size
     # (`GenericArray::from_slice`): the parser must size it by the algorithm's own accessor, never by a length octet of the packet
     b = ctx.body('types::params::secret::parse_secret_fields')
